@@ -56,13 +56,14 @@ def Ty.key : Ty → String
 
 /-- The encoder callables used in the `encoders` dicts. -/
 inductive Enc where
-  | str | int | float | noop | bool | formatDatetime
+  | str | int | float | noop | bool | formatDatetime | rejectNul
   deriving DecidableEq, Repr
 
 /-- How the source spells the callable. -/
 def Enc.name : Enc → String
   | .str => "str" | .int => "int" | .float => "float" | .noop => "noop" | .bool => "bool"
   | .formatDatetime => "format_datetime"
+  | .rejectNul => "_reject_nul"
 
 /-- `type(value)` as a dict key (exact type: `bool` is not `int`, `datetime` is not `date`). -/
 def typeOf : Val → Option Ty
@@ -104,7 +105,10 @@ def encodersOf : Cls → List (Ty × Enc)
   | .csv => dictUpdate baseEncoders [(.datetime, .formatDatetime)]
   | .json => dictUpdate baseEncoders [(.date, .str), (.datetime, .str), (.bool, .bool)]
   | .sqlDb => dictUpdate baseEncoders [(.datetime, .formatDatetime)]
-  | .sqlText => baseEncoders
+  | .sqlText => dictUpdate baseEncoders [(.str, .rejectNul)]   -- since fix e8cf4d3 (before: inherited)
+
+/-- the string holds a NUL character -/
+def hasNul (s : String) : Bool := s.toList.contains (Char.ofNat 0)
 
 /-- `str(v)` / `f"{v}"` -/
 def pyStr : Val → String
@@ -129,6 +133,7 @@ def applyEnc : Enc → Val → Option Val
   | .float, .float r => some (.float r)
   | .bool, .bool b => some (.bool b)
   | .formatDatetime, .datetime tsec _ => some (.str tsec)
+  | .rejectNul, .str s => if hasNul s then Option.none else some (.str s)   -- raises `ValueError` on NUL
   | _, _ => Option.none
 
 /-- What `flatten` returns for a reference. -/
@@ -178,8 +183,9 @@ inductive Cell where
 def int64 (i : Int) : Bool := decide (-9223372036854775808 ≤ i) && decide (i ≤ 9223372036854775807)
 
 /-- `SqlTextOutputStream` renders its rows with `sqlite3.Connection.iterdump()`, i.e. with sqlite's
-    `quote()`, which stops at the first NUL character of a text value (observed: `"a\0b"` is dumped
-    as `'a'` — defect D56; the database behind a dburl keeps the full value). -/
+    `quote()`, which stops at the first NUL character of a text value (`"a\0b"` would be dumped as
+    `'a'`; the database behind a dburl keeps the full value).  Since fix e8cf4d3 the class's `str`
+    encoder `_reject_nul` raises before such a string reaches the dump (defect D56 before it). -/
 def truncNul (s : String) : String := String.ofList (s.toList.takeWhile (fun c => c != Char.ofNat 0))
 
 /-- text of a string value as it reaches the artefact of a sqlite-backed class -/
